@@ -45,7 +45,7 @@ def cases(tier, seed):
             for mode in ("centres", "ids", "create", "ids+num", "centres+num"):
                 if mode == "create" and n < 4:
                     continue
-                for src in ("frame", "hdf", "fits", "pq1", "pq2", "pq4", "pqn"):
+                for src in ("frame", "hdf", "fits", "pq1", "pq2", "pq4", "pqn", "pqu"):
                     if tier == "quick" and src in ("pq1", "pq4") and mode not in ("centres", "create"):
                         continue
                     out.append(dict(n=n, chunksize=cs, source=src, mode=mode))
@@ -94,6 +94,24 @@ class LogFrame:
             return self.df.iloc[key]
         self.log.req("whole-column", 0, n, n)
         return self.df[key]
+
+    @property
+    def iloc(self):
+        return self  # positional slicing is what __getitem__ logs
+
+    @property
+    def loc(self):
+        outer = self
+
+        class _Loc:  # label based access: translate to the positions actually delivered
+            def __getitem__(self, key):
+                sub = outer.df.loc[key]
+                pos = np.nonzero(outer.df.index.isin(sub.index))[0]
+                if len(pos):
+                    outer.log.req("rows", pos[0], pos[-1] + 1, len(outer.df))
+                return sub
+
+        return _Loc()
 
 
 class LogDataset:
@@ -201,7 +219,9 @@ def run_case(case):
         if src == "frame":
             if not mode.startswith("ids"):
                 cols.pop("pid")
-            cat = Catalog.from_dataframe(d + "/cat", LogFrame(pd.DataFrame(cols), log), **kw)
+            df = pd.DataFrame(cols)
+            df.index = np.arange(len(df)) * 3 + 5  # as left behind by df[mask]: labels are not positions
+            cat = Catalog.from_dataframe(d + "/cat", LogFrame(df, log), **kw)
         elif src == "random":
             from yaw.randoms import BoxRandoms
 
@@ -341,8 +361,21 @@ def write_file(src, cols, d, n):
         from pyarrow import parquet
 
         p = os.path.join(d, "in.parquet")
-        rg = dict(pq1=1, pq2=2, pq4=4, pqn=max(n, 1))[src]
-        parquet.write_table(pa.table(cols), p, row_group_size=rg)
+        if src == "pqu":  # unequal row groups, the first one the largest (files written by appending tables)
+            sizes, left = [], n
+            first = max(1, (n + 1) // 2)
+            while left > 0:
+                sizes.append(min(first if not sizes else 1 + len(sizes) % 2, left))
+                left -= sizes[-1]
+            tab = pa.table(cols)
+            with parquet.ParquetWriter(p, tab.schema) as wr:
+                start = 0
+                for sz in sizes:
+                    wr.write_table(tab.slice(start, sz), row_group_size=sz)
+                    start += sz
+        else:
+            rg = dict(pq1=1, pq2=2, pq4=4, pqn=max(n, 1))[src]
+            parquet.write_table(pa.table(cols), p, row_group_size=rg)
     return p
 
 
